@@ -1,4 +1,4 @@
-CONSTANTS NH = 4  MaxPrem = 2  MaxOps = 4  Deviation = FALSE
+CONSTANTS NH = 4  MaxPrem = 2  MaxOps = 4  Deviation = TRUE
 INIT Init
 NEXT Next
 VIEW ViewGen
